@@ -17,143 +17,146 @@ def lean_chars(s: str) -> str:
     return "[" + ", ".join(f"Char.ofNat {ord(c)}" for c in s) + "]"
 
 
+RUST_INT = r"(?:0x[0-9a-fA-F_]+|0o[0-7_]+|0b[01_]+|\d[\d_]*)(?:_?[ui](?:8|16|32|64|128|size))?"
+
+
+def rust_int(tok: str) -> int:
+    t = re.sub(r"_?[ui](?:8|16|32|64|128|size)$", "", tok).replace("_", "")
+    return int(t, 0) if t[:2] in ("0x", "0o", "0b") else int(t)
+
+
 def parse_enum(src: str, name: str):
-    m = re.search(r"enum " + name + r" \{(.*?)\n\}", src, re.S)
+    """The literals of a logos enum, in source order: [(variant, [literals])]. Only the
+    `#[token("…")]` attributes are read; everything else about the generated file (the arms of
+    `parse`, helper functions, their order and spelling) is obtained by EXECUTING `parse`."""
+    m = re.search(r"enum\s+" + name + r"\s*\{(.*?)\n\}", src, re.S)
     if not m:
         raise ExtractError(f"enum {name} not found")
-    variants = []  # (variant, [literals])
-    lits = []
-    for line in m.group(1).splitlines():
-        line = line.strip()
-        if not line or line.startswith("///"):
-            continue
-        t = re.fullmatch(r'#\[token\("((?:[^"\\]|\\.)*)"\)\]', line)
-        if t:
-            lits.append(t.group(1))
-            continue
-        v = re.fullmatch(r"(\w+),", line)
-        if v:
-            variants.append((v.group(1), lits))
-            lits = []
-            continue
-        raise ExtractError(f"enum {name}: unexpected line {line!r}")
+    body = re.sub(r"//[^\n]*", "", m.group(1))
+    variants = []
+    pos = 0
+    item = re.compile(r'\s*((?:#\[[^\]]*\]\s*)*)(\w+)\s*(?:=\s*\d+\s*)?,', re.S)
+    while True:
+        mm = item.match(body, pos)
+        if not mm:
+            if body[pos:].strip():
+                raise ExtractError(f"enum {name}: unexpected text {body[pos:pos + 60]!r}")
+            break
+        attrs, v = mm.group(1), mm.group(2)
+        lits = re.findall(r'#\[token\(\s*"((?:[^"\\]|\\.)*)"[^\]]*\]', attrs)
+        if "#[regex" in attrs:
+            raise ExtractError(f"enum {name}: variant {v} uses a regex (not modelled)")
+        variants.append((v, lits))
+        pos = mm.end()
     return variants
 
 
-def unit_expr_key(expr: str, idmap):
-    expr = expr.strip().rstrip(",;")
-    m = re.fullmatch(r"Unit::Derived\(units::([\w:]+)\)", expr)
-    if m:
-        path = m.group(1)
-        if path not in idmap:
-            raise ExtractError(f"no id for units::{path}")
-        return f".derived {idmap[path]}"
-    m = re.fullmatch(r"Unit::(\w+)", expr)
-    if m:
-        return f".base .{m.group(1)}"
-    raise ExtractError(f"unit expression {expr!r}")
+def unit_key_lean(key: str) -> str:
+    """harness unit key (`Meter`, `D<id>`) -> Lean UnitKey term."""
+    if key.startswith("D") and key[1:].isdigit():
+        return f".derived {key[1:]}"
+    if key.isalpha():
+        return f".base .{key}"
+    raise ExtractError(f"unit key {key!r}")
+
+
+def _uw(res):
+    """`U NONE` -> None; `U <rest> <prefix> <key>` -> (rest, prefix, key)."""
+    f = res.split(" ")
+    if f[:2] == ["U", "NONE"]:
+        return None
+    if f[0] != "U" or len(f) != 4:
+        raise ExtractError(f"unitw answered {res!r}")
+    return int(f[1]), int(f[2]), f[3]
+
+
+def _agree(cands):
+    """The value at least two of the probes agree on (the probes are built by gluing literals,
+    and a glued probe may happen to be lexed as another literal; two independent ones rule that out)."""
+    for c in cands:
+        if c is not None and sum(1 for d in cands if d == c) >= 2:
+            return c
+    return None
 
 
 def extract(repo=C.REPO, harness=None):
     src = (repo / "src/generated/unit.rs").read_text()
     ids_src = (repo / "src/generated/ids.rs").read_text()
     prefix_src = (repo / "src/prefix.rs").read_text()
+    harness = harness or C.harness_bin(False)
 
     # ids: constants and the id -> static map
-    consts = dict(re.findall(r"pub const (\w+): u32 = (\d+);", ids_src))
+    consts = {k: str(rust_int(v)) for k, v in re.findall(r"pub const (\w+): u32 = (" + RUST_INT + r");", ids_src)}
     idmap = {}
-    for num, path in re.findall(r"^\s*(\d+) => Some\(units::([\w:]+)\),", ids_src, re.M):
+    for num, path in re.findall(r"^\s*(" + RUST_INT + r")\s*=>\s*Some\(\s*(?:crate::)?units::([\w:]+)\s*\),?", ids_src, re.M):
         if path in idmap:
             raise ExtractError(f"duplicate static {path}")
-        idmap[path] = int(num)
+        idmap[path] = rust_int(num)
     if not idmap:
         raise ExtractError("id_to_derived arms not found")
 
-    prefixes = {k: int(v) for k, v in re.findall(r"pub const (\w+): i32 = (-?\d+);", prefix_src)}
+    prefixes = {k: rust_int(v) if not v.startswith("-") else -rust_int(v[1:])
+                for k, v in re.findall(r"pub const (\w+): i32 = (-?" + RUST_INT + r");", prefix_src)}
 
     combined = parse_enum(src, "Combined")
     units = parse_enum(src, "Units")
 
-    body = src[src.index("pub fn parse"):]
-    first, second = body.split("let mut lexer = Units::lexer", 1)
-
-    # Combined arms
-    actions = {}
-    for v, rhs in re.findall(r"Combined::(\w+) => (Unit::[\w:()]+),", first):
-        actions[v] = f".unit ({unit_expr_key(rhs, idmap)}) 0"
-    for v, blk in re.findall(r"Combined::(\w+) => \{(.*?)\n            \}", first, re.S):
-        lines = [l.strip() for l in blk.strip().splitlines() if l.strip()]
-        if lines == ["continue;"]:
-            actions[v] = ".sep"
-            continue
-        m = re.fullmatch(r"prefix \+= (-?\d+);", lines[0])
-        if m and len(lines) == 2 and lines[1].startswith("Unit::"):
-            actions[v] = f".unit ({unit_expr_key(lines[1], idmap)}) ({m.group(1)})"
-            continue
-        alone = "none"
-        alone_lit = None
-        msl = re.fullmatch(r'if lexer\.remainder\(\)\.is_empty\(\) && lexer\.slice\(\) == "((?:[^"\\]|\\.)*)" \{', lines[0])
-        if msl:
-            alone_lit = msl.group(1)
-            lines[0] = "if lexer.remainder().is_empty() {"
-        if lines[0] == "if lexer.remainder().is_empty() {":
-            j = lines.index("}")
-            inner = lines[1:j]
-            bias = 0
-            if len(inner) == 2:
-                mb = re.fullmatch(r"prefix \+= (-?\d+);", inner[0])
-                if not mb:
-                    raise ExtractError(f"Combined::{v}: {inner}")
-                bias = int(mb.group(1))
-                inner = inner[1:]
-            mr = re.fullmatch(r'return Some\(\(\"\", prefix, (.*)\)\);', inner[0]) if len(inner) == 1 else None
-            if not mr:
-                raise ExtractError(f"Combined::{v}: special case {inner}")
-            alone = f"some ({unit_expr_key(mr.group(1), idmap)}, ({bias}))"
-            lines = lines[j + 1:]
-        mp = re.fullmatch(r"prefix \+= Prefix::(\w+);", lines[0]) if len(lines) == 2 else None
-        if not mp or lines[1] != "break;":
-            raise ExtractError(f"Combined::{v}: unexpected block {lines}")
-        if mp.group(1) not in prefixes:
-            raise ExtractError(f"Prefix::{mp.group(1)} unknown")
-        actions[v] = (f".pfx ({prefixes[mp.group(1)]}) ({alone})", alone_lit, f".pfx ({prefixes[mp.group(1)]}) (none)")
-    uactions = {}
-    for v, blk in re.findall(r"Units::(\w+) => \{(.*?)\n            \}", second, re.S):
-        lines = [l.strip() for l in blk.strip().splitlines() if l.strip()]
-        if lines == ["continue;"]:
-            uactions[v] = ".sep"
-            continue
-        bias = 0
-        if len(lines) == 2:
-            mb = re.fullmatch(r"prefix \+= (-?\d+);", lines[0])
-            if not mb:
-                raise ExtractError(f"Units::{v}: {lines}")
-            bias = int(mb.group(1))
-            lines = lines[1:]
-        mb = re.fullmatch(r"break (.*);", lines[0]) if len(lines) == 1 else None
-        if not mb:
-            raise ExtractError(f"Units::{v}: {lines}")
-        uactions[v] = f".unit ({unit_expr_key(mb.group(1), idmap)}) ({bias})"
-
+    # What `generated::unit::parse` DOES with each literal, by execution (harness `unitw`):
+    #   a unit literal L:    parse(L#)  = (rest "#", bias, unit)           -> .unit key bias
+    #   a prefix literal P:  parse(P#)  = None, parse(Pm) = (0, p, Meter), parse(Ps) = (0, p, Second), …
+    #                        and parse(P) alone gives its stand-alone reading     -> .pfx p alone
+    #   a separator S:       parse(Sm)  = (0, 0, Meter), parse(S) = None          -> .sep
+    # and for the literals of the second lexer (`Units`, used after a prefix):
+    #   parse(kiloL) = (0, 3 + bias, unit), likewise mega, giga                   -> .unit key bias
+    TAILS = [("m", "Meter"), ("s", "Second"), ("K", "Kelvin")]
+    HEADS = [("kilo", 3), ("mega", 6), ("giga", 9)]
+    probes = []
+    for v, lits in combined:
+        for l in lits:
+            probes += [l, l + "#"] + [l + t for t, _ in TAILS]
+    for v, lits in units:
+        for l in lits:
+            probes += [h + l for h, _ in HEADS] + [h + l + "m" for h, _ in HEADS[:2]]
+    rc, out, err = C.run_lines(harness, ["unitw " + C.hexs(p_) for p_ in probes], watchdog=10)
+    if len(out) != len(probes):
+        raise ExtractError(f"unitw answered {len(out)}/{len(probes)}: {err[-300:]}")
+    it = iter(out)
     comb_rows, unit_rows = [], []
     for v, lits in combined:
-        if v not in actions:
-            raise ExtractError(f"no arm for Combined::{v}")
         for l in lits:
-            a = actions[v]
-            if isinstance(a, tuple):
-                # the stand-alone special case may be tied to one spelling (`lexer.slice() == "…"`)
-                a = a[0] if (a[1] is None or a[1] == l) else a[2]
-            comb_rows.append((l, a))
+            alone, hashed = _uw(next(it)), _uw(next(it))
+            tails = [_uw(next(it)) for _ in TAILS]
+            if hashed is not None:
+                if hashed[0] != 1 or alone != (0, hashed[1], hashed[2]):
+                    raise ExtractError(f"Combined literal {l!r}: parse alone {alone}, followed by '#' {hashed}")
+                comb_rows.append((l, f".unit ({unit_key_lean(hashed[2])}) " + ("0" if hashed[1] == 0 else f"({hashed[1]})")))
+                continue
+            p_ = _agree([r[1] if r is not None and r[0] == 0 and r[2] == key else None for r, (_, key) in zip(tails, TAILS)])
+            if p_ is None:
+                raise ExtractError(f"Combined literal {l!r} ({v}): neither a unit nor a prefix: {tails}")
+            if p_ == 0 and alone is None:
+                comb_rows.append((l, ".sep"))
+                continue
+            if p_ not in prefixes.values():
+                raise ExtractError(f"Combined literal {l!r}: power {p_} is no Prefix constant")
+            if alone is not None and alone[0] != 0:
+                raise ExtractError(f"Combined literal {l!r} alone leaves {alone[0]} bytes")
+            a = "none" if alone is None else f"some ({unit_key_lean(alone[2])}, ({alone[1]}))"
+            comb_rows.append((l, f".pfx ({p_}) ({a})"))
     for v, lits in units:
-        if v not in uactions:
-            raise ExtractError(f"no arm for Units::{v}")
         for l in lits:
-            unit_rows.append((l, uactions[v]))
+            heads = [_uw(next(it)) for _ in HEADS]
+            seps = [_uw(next(it)) for _ in HEADS[:2]]
+            got = _agree([(r[1] - hp, r[2]) if r is not None and r[0] == 0 else None for r, (_, hp) in zip(heads, HEADS)])
+            if got is not None:
+                unit_rows.append((l, f".unit ({unit_key_lean(got[1])}) ({got[0]})"))
+            elif all(r is None for r in heads) and seps == [(0, 3, "Meter"), (0, 6, "Meter")]:
+                unit_rows.append((l, ".sep"))
+            else:
+                raise ExtractError(f"Units literal {l!r} ({v}): {heads}")
 
     # unit definitions by execution
     ids = sorted(set(idmap.values()))
-    harness = harness or C.harness_bin(False)
     rc, out, err = C.run_lines(harness, [f"unitinfo {i}" for i in ids])
     if len(out) != len(ids):
         raise ExtractError(f"unitinfo answered {len(out)}/{len(ids)}: {err[-300:]}")
